@@ -381,7 +381,7 @@ class RDMol2StereoMolGraph:
                     for r in Chem.GetSymmSSSR(rdmol)
                     if begin_idx in r and end_idx in r
                 ]
-                rings.sort(key=lambda x: (x[0], x[1]), reverse=True)
+                rings.sort(key=lambda x: (not x[0], x[1]))
 
                 if rings and (
                     rings[0][0] is True  # aromatic rings always cis
